@@ -21,16 +21,6 @@ def KLabel.keepsLockStep (T : TS) : KLabel → Prop
   | .wipe => False
   | _ => True
 
-theorem LockedBy.lock_eq {e : Entry} {T : TS} {l : Lock} (h : LockedBy e T) (hl : e.lock = some l) :
-    l.startTS = T ∧ l.op ≠ .pessimisticLock := by
-  obtain ⟨l0, h0, hT, hop⟩ := h
-  rw [hl] at h0; injection h0 with h0; subst h0
-  exact ⟨hT, hop⟩
-
-theorem LockedBy.of_lock_eq {e e' : Entry} {T : TS} (h : LockedBy e T) (heq : e'.lock = e.lock) : LockedBy e' T := by
-  obtain ⟨l0, h0, hT, hop⟩ := h
-  exact ⟨l0, by rw [heq]; exact h0, hT, hop⟩
-
 /-- GOAL 2, one step: a key carrying a prewrite lock of `T` still carries a prewrite lock of `T` after every step
     other than `commit T _`, `rollback T`, `locks _`, `unlock`, `wipe`.  (`touch T` rewrites the lock keeping its op;
     `marker`, `gc`, `same` leave it alone.) -/
@@ -258,3 +248,49 @@ theorem prewrite_ack_locks_stay (s : Store) (r : PrewriteReq) (cs : List Cmd) (h
     (prewrite_ack_locks s r hs _ _ rfl hack hops m hm hne)
 
 end CGV.Mvcc
+
+namespace CGV.MvccFull
+open CGV CGV.Mvcc
+
+/-! ### the full store: base commands are served through `settle`, which keeps every lock -/
+
+/-- GOAL 2 in the full store, one command: a base-store command served by the full store (`f.settle (c.run f.base)`,
+    as `frpcExec` does) keeps a prewrite lock of `T` unless it can take a `commit T _`, `rollback T` or `wipe` step -/
+theorem settle_cmd_lock_kept (f : FStore) (c : Cmd) (hs : SInv f.base) (hok : c.Ok f.base) (k : Bytes) (T : Nat)
+    (hl : PrewriteLocked f T k) (hg : ∀ lab, c.labels k lab → lab.keepsLock T) :
+    PrewriteLocked (f.settle (c.run f.base)) T k :=
+  LockedBy.of_lock_eq (Cmd.run_lock_kept f.base c hs hok k T hl hg) (settle_lock f _ k)
+
+/-- a CheckSecondaryLocks that finds every key locked leaves every lock of the store in place (so it can be repeated,
+    by anybody, with the same answer) -/
+theorem fcheckSecondaryLocks_all_locked_keeps (f : FStore) (keys : List Bytes) (T : Nat)
+    (h : ∀ k ∈ keys, PrewriteLocked f T k) (k' : Bytes) (T' : Nat) (hl : PrewriteLocked f T' k') :
+    PrewriteLocked (fcheckSecondaryLocks f keys T).1 T' k' := by
+  rw [(sec_all_locked f keys T h).2.2]
+  exact LockedBy.of_lock_eq hl (settle_lock f _ k')
+
+theorem bump_base (f : FStore) (ts : Nat) : (f.bump ts).base = f.base ∧ (f.bump ts).async = f.async := by
+  unfold FStore.bump; split <;> exact ⟨rfl, rfl⟩
+
+theorem isAsyncLock_bump (f : FStore) (ts : Nat) (k : Bytes) (T : Nat) :
+    isAsyncLock (f.bump ts) k T = isAsyncLock f k T := by
+  unfold FStore.bump; split <;> rfl
+
+/-- a status check that meets an async-commit primary (and is not told to force the transaction to 2PC) neither rolls
+    back nor pushes anything, however old the lock is: it reports the lock with its secondaries, and the base store
+    is unchanged — the decision is left to CheckSecondaryLocks -/
+theorem fcheckTxnStatus_async_primary_untouched (f : FStore) (p : Bytes) (T caller cur : Nat) (rb rp : Bool)
+    (h : isAsyncLock f p T = true) :
+    (fcheckTxnStatus f p T caller cur rb rp false).1.base = f.base ∧
+      (fcheckTxnStatus f p T caller cur rb rp false).2.base.action = .noAction ∧
+      (fcheckTxnStatus f p T caller cur rb rp false).2.base.commitTS = 0 ∧
+      (fcheckTxnStatus f p T caller cur rb rp false).2.base.err = none := by
+  have hb : ((f.bump caller).bump cur).base = f.base := by rw [(bump_base _ _).1, (bump_base _ _).1]
+  have h' : isAsyncLock ((f.bump caller).bump cur) p T = true := by rw [isAsyncLock_bump, isAsyncLock_bump]; exact h
+  unfold fcheckTxnStatus
+  simp only [h', Bool.not_false, Bool.and_self, if_true]
+  split
+  · exact ⟨hb, rfl, rfl, rfl⟩
+  · exact ⟨hb, rfl, rfl, rfl⟩
+
+end CGV.MvccFull
